@@ -33,6 +33,20 @@ pub fn compress(c: &mut Case, fmt: Fmt, input: &[u8]) -> Option<Result<Vec<u8>, 
     let what = if fmt == Fmt::Lz10 { "LZ10 compress" } else { "LZ13 compress" };
     // small inputs (and every fourth case) are compressed twice, under two heap poison bytes
     let r = if input.len() <= 4096 || c.idx % 4 == 0 { c.lib_stable(what, call) } else { c.lib(what, call) };
+    if input.len() <= 2048 {
+        // the other public entry point must give the very same bytes
+        let other = c.lib("compress (other entry point)", || match (fmt, !via_enum) {
+            (Fmt::Lz10, false) => LZ10CompressionFormat {}.compress(input).map_err(|e| e.to_string()),
+            (Fmt::Lz13, false) => LZ13CompressionFormat {}.compress(input).map_err(|e| e.to_string()),
+            (Fmt::Lz10, true) => CompressionFormat::LZ10(LZ10CompressionFormat {}).compress(input).map_err(|e| e.to_string()),
+            (Fmt::Lz13, true) => CompressionFormat::LZ13(LZ13CompressionFormat {}).compress(input).map_err(|e| e.to_string()),
+        });
+        if let (Some(a), Some(b)) = (&r, &other) {
+            if a != b {
+                c.fail("two_routes", "compress_entry_points_differ", format!("{}: the format struct and the CompressionFormat enum return different results for the same {}-byte input {}", what, input.len(), hex_short(input, 48)));
+            }
+        }
+    }
     monitor::alloc_watch_end();
     r
 }
